@@ -520,11 +520,10 @@ func readView(v *manager.View, prefetch bool, convs []string) ([]streamObs, erro
 				o.sdata += string(d.Content)
 			}
 		}
-		if prefetch {
-			o.tags, err = sc.AllTags()
-			if err != nil {
-				return err
-			}
+		// without prefetch this lists the tags the view reports as decided and matching
+		o.tags, err = sc.AllTags()
+		if err != nil {
+			return err
 		}
 		res = append(res, o)
 		return nil
